@@ -111,6 +111,17 @@ template <typename CharT, typename SizeT>
     return 0;
 }
 
+template <typename CharT, typename SizeT>
+[[nodiscard]] constexpr auto memcmp(CharT const* lhs, CharT const* rhs, SizeT count) noexcept -> int
+{
+    for (SizeT i{0}; i != count; ++i) {
+        if (lhs[i] != rhs[i]) {
+            return cstr_compare<CharT>(lhs[i], rhs[i]);
+        }
+    }
+    return 0;
+}
+
 template <typename CharT>
 [[nodiscard]] constexpr auto strchr(CharT* str, int ch) -> CharT*
 {
